@@ -1,5 +1,6 @@
 import ScrapliProps.C01Lemmas
 import ScrapliProps.C01Interact
+import ScrapliProps.C01Platform
 /-
   C01 — a command's response is exactly what the device printed for that command.
   Property theorems only (helper lemmas and the definitions `Quiet`, `NoEarly`, `PromptOK`,
@@ -298,6 +299,25 @@ example (cuts : List Nat) :
   simp only [List.map_cons, List.map_nil, expectedOp]
   rw [expected_is_normalized_strip exFits exCmd exSub]
   rfl
+
+/-- **C01 for a real driver pattern**: on a device whose prompt is ANY exec / privilege-exec /
+    configuration prompt the IOS-XE class pattern admits (every host name of its class, 1..63 bytes,
+    every mode text), every list of commands inside the quantifier returns exactly each command's own
+    output, for every segmentation — the hypotheses `blank`, `NoEarly`, `PromptOK` of `Fits` are PROVED
+    for these prompts (`iosxe_fits`); what remains assumed is that the compiled pattern searches line
+    by line with `iosxeP`, which the check compares with CPython on every run. -/
+theorem iosxe_session_exact (cfg : Cfg) (out : Bytes → Bytes) {p : Bytes} (hp : XePrompt p)
+    (hS : ∀ x, cfg.prompt.search x = (splitNL x).any iosxeP)
+    (hstrict : cfg.rough = false) (hret : cfg.ret = [NL]) (hwin : p.length < cfg.depth)
+    (stripPrompt : Bool) (inputs : List Bytes)
+    (hg : ∀ i ∈ inputs, GoodCmd iosxeP { out := out, prompt := p, trail := [] } i)
+    (w : Wire) (hw : ∀ x ∈ w.avail, isHws x = true) (hheld : w.held = []) :
+    ∃ rs w', runCmds cfg (LineDev.onWrite { out := out, prompt := p, trail := [] }) stripPrompt inputs (w, []) =
+        some (rs, (w', [])) ∧
+      rs.map (·.2) = inputs.map (expected cfg { out := out, prompt := p, trail := [] } stripPrompt) ∧
+      w'.writes = w.writes ++ (inputs.map (fun i => [i, [NL]])).flatten ∧
+      (∀ x ∈ w'.avail, isHws x = true) ∧ w'.held = [] :=
+  session_exact (iosxe_fits cfg out hp hS hstrict hret hwin) stripPrompt inputs hg w hw hheld
 
 /-- the defaults regenerated from the source lie inside the scope of the session theorems
     (return character `\n`, strict input matching, a positive search depth) -/
